@@ -14,5 +14,6 @@ c18_rs c18_staticpie    c18_main --cfg plain -C target-feature=+crt-static
 c18_rs c18_static       c18_main --cfg plain -C target-feature=+crt-static -C relocation-model=static -C link-arg=-no-pie
 c18_rs c18_startup      c18_main --cfg startup -L progs -C link-arg=-Wl,-rpath,\$ORIGIN
 c18_rs c18_startup_nopie c18_main --cfg startup -L progs -C link-arg=-Wl,-rpath,\$ORIGIN -C relocation-model=static -C link-arg=-no-pie
+c18_rs c18_startup2     c18_main --cfg startup2 -L progs -C link-arg=-Wl,-rpath,\$ORIGIN
 c18_rs c18_dl           c18_main --cfg dl
 c18_rs c18_dl_nopie     c18_main --cfg dl -C relocation-model=static -C link-arg=-no-pie
